@@ -304,6 +304,10 @@ def _assembly_strategy(draw, tier='quick'):
             pc['r'] = max(a, b) * 10.
         pc['explicit_model'] = True
         pc['N'] = [draw(gen.fl(-100., 100.)) for _ in range(3)] if draw(st.integers(0, 3)) else [None, None, None]
+        if draw(st.integers(0, 4)) == 0:
+            # a panel loaded by a single resultant (pure shear, or one normal resultant), the others left undefined
+            k = draw(st.integers(0, 2))
+            pc['N'] = [(draw(gen.fl(-100., 100.)) or 7.) if i == k else None for i in range(3)]
         panels.append(pc)
     conn = []
     for k in range(npan - 1):
